@@ -41,7 +41,7 @@ def tasks(tier):
             [1, 2, 3], [{}, {"T": 1}], [None, 1], [None, 3], [None, {"max": 1, "window": 8}],
             [True, "object"], [None, "opname"]):
         cfg = dict(M=M, per_class=pc, max_unknown=mu, deadline=dl, budget=bud, alphabet=ALPHA,
-                   durs=[0, 2], overshoot=[0, 2], abort=True, handler="call", strat_menu=[1, 9],
+                   durs=[0, 2], overshoot=[0, 3], abort=True, handler="call", strat_menu=[1, 9],
                    timeline=tl,
                    operation=opn,
                    strat={"default": "ctx", "per": {}} if mu is None else
@@ -63,6 +63,13 @@ def tasks(tier):
                     "ncalls": 3, "ticks": [0, 2], "weight": 5})
     out += nest_tasks(RETRY_ENTRIES, "stream-reentrant", ["ok", "x:T", "r:T", "x:U", "abort"],
                       handler="call", timeline=True, operation="opname")
+    # a second call arrives (re-entrantly) while the first one is the half-open probe
+    for site, e in itertools.product(["aend", "metric"], POLICY_ENTRIES):
+        cfg = dict(M=2, alphabet=["ok", "x:T", "r:T"], max_unknown=None, attempt_hooks="call",
+                   operation="opname", nest={"site": site, "entry": e, "script": ["ok"]},
+                   breaker={"threshold": 1, "window": 8, "recovery": 2, "trip_on": ["T"],
+                            "pre": [("fail", "T"), ("tick", 2)]})
+        out.append({"family": "breaker-events-overlap", "cfg": cfg, "entry": e, "bound": 1})
     return out
 
 
@@ -75,6 +82,15 @@ def _tags_of_log(fields):
 
 
 def monitor(w, cfg):
+    v = []
+    for nt in getattr(w, "nested_traces", ()):
+        v.extend(_breaker_events(nt, cfg))
+    v.extend(_stream(w, cfg))
+    v.extend(_breaker_events(w.trace, cfg))
+    return v
+
+
+def _stream(w, cfg):
     v = []
     for call in split_calls(w.trace):
         end = call.end
@@ -177,7 +193,8 @@ def monitor(w, cfg):
                 v.append(("c14.success-tags", f"success event carries {sorted(extra)}"))
             continue
         dr = delivered_reason(call)
-        if dr is not None and tags.get("stop_reason") != dr:
+        has_delivered = end[1] == "outcome" or dr is not None
+        if has_delivered and tags.get("stop_reason") != dr:
             v.append(("c14.reason-mismatch", f"terminal event stop_reason={tags.get('stop_reason')}"
                                              f", delivered {dr}"))
         if tags.get("stop_reason") is None:
@@ -204,13 +221,16 @@ def monitor(w, cfg):
             if last.kind == "r" and "err" in tags:
                 v.append(("c14.err-tag", f"terminal {term[0]} carries err={tags['err']} for a "
                                          f"result-caused failure"))
-    # breaker events
-    tr = w.trace
+    return v
+
+
+def _breaker_events(tr, cfg):
+    v = []
     for i, r in enumerate(tr):
         if r[0] != "brk":
             continue
         ev = r[3][2] if r[1] == "allow" else r[3]
-        state = r[3][1] if r[1] == "allow" else r[4]
+        state = r[4]   # the breaker's actual state right after the operation
         nxt = []
         for q in tr[i + 1:]:
             if q[0] in ("metric", "log") and q[1].startswith("circuit_"):
